@@ -13,7 +13,26 @@ def _replay(run, inputs, rp, repo, verif):
     return replay.run(exe, [run['id']])
 
 
+def _ndt_table(repo):
+    """R15g: the built-in number types: every `add(new NumberDataType(id, ...))` of DataTypeList::DataTypeList as a row of ndt_table (argument text verbatim);
+    6 arguments = bit type (id, bits, flags, replacement, firstBit, divisor), 7 = byte type (id, bits, flags, replacement, min, max, divisor)"""
+    import re, os
+    txt = open(os.path.join(repo, DT_CPP)).read()
+    rows = []
+    for m in re.finditer(r'^\s*add\(new NumberDataType\("([A-Z0-9:]+)",\s*([^;]*?)\)\);', txt, re.M):
+        args = [a.strip() for a in m.group(2).split(',')]
+        if len(args) == 5:
+            rows.append('{ %s, %s, %s, 0, 0, %s, %s, 1 }' % (args[0], args[1], args[2], args[4], args[3]))
+        elif len(args) == 6:
+            rows.append('{ %s, %s, %s, %s, %s, %s, 0, 0 }' % (args[0], args[1], args[2], args[3], args[4], args[5]))
+        else:
+            raise Exception('unexpected NumberDataType constructor call: %s' % m.group(0))
+    text = 'static const struct { size_t bitCount; unsigned flags, replacement, minValue, maxValue; int divisor; int firstBit; int is_bits; } ndt_table[] = {\n  ' + ',\n  '.join(rows) + '\n};\n#define NDT_TABLE_N %d' % len(rows)
+    return text, len(rows)
+
+
 UNIT = dict(
+    generated=[_ndt_table],
     replay=_replay,
     trusted=['strtol/strtoul/strtod are environment stubs (units/number/main.c): they return the clamp of a ghost mathematical reading of the text, set errno=ERANGE exactly on overflow and leave errno untouched otherwise (ISO C 7.22.1)',
              'exp2() for integral arguments 0..64 is exact; round() is CBMC\'s IEEE round-half-away-from-zero',
@@ -57,6 +76,10 @@ UNIT = dict(
         dict(file=DT_CPP, name='NumberDataType::getRawValueFromFloat', cname='NDT_getRawValueFromFloat', self='NDT'),
         dict(file=DT_CPP, name='NumberDataType::getFloatFromRawValue', cname='NDT_getFloatFromRawValue', self='NDT'),
         dict(file=DT_CPP, name='NumberDataType::calcPrecision', cname='NDT_calcPrecision', self=None),
+        dict(_inl, name='isAdjustableLength', cname='DataType_isAdjustableLength', static=True),
+        dict(file=DT_CPP, name='NumberDataType::derive', sig='int divisor, size_t bitCount', cname='NDT_derive', self='NDT', params_c=['int divisor', 'size_t bitCount', 'const NDT** derived'],
+             pre_subs=[(r'ostringstream str;.*?DataTypeList::getInstance\(\)->add\(\*derived, key\);\s*\}', 'env_new_type(self, bitCount, divisor, derived);', 1)],
+             cfg=dict(own_methods={'isAdjustableLength': ('DataType_isAdjustableLength', 'self')}, text_subs=[(r'\(\*derived\) = self;', '*derived = self;')])),
     ],
     runs=[],
 )
@@ -104,3 +127,6 @@ for _b in (0, 1):
         if (_b, _l) != (1, 4):   # BCD 4 bytes: did not finish in 3000 s
             R('roundtrip_bcd%d_len%d' % (_b, _l), 'h_roundtrip', None, defines=['CASE_BCD=%d' % _b, 'CASE_LEN=%d' % _l], unwind=5, props=('C06',), cost=10 if (_b, _l) != (1, 3) else 60)
 R('calcPrecision', 'h_calcPrecision', 'NDT_calcPrecision', unwind=12, props=('C05', 'C20'), cost=2)
+for _b in (1, 2, 16, 256, 1000, -10):
+    R('derive_base%s' % str(_b).replace('-', 'm'), 'h_derive', None, unwind=12, defines=['CASE_BASEDIV=%d' % _b], props=('C07', 'C20'), cost=30, solver='kissat')
+R('type_table', 'h_type_table', None, unwind=70, props=('C05', 'C07', 'C20'), cost=20)
